@@ -22,6 +22,11 @@ VALUE_REFS = {'os.environ', 'sys.argv', 'sys.stdout', 'sys.stderr', 'sys.stdin',
 
 def truth(t):
     """True / False / None(unknown) of a term."""
+    if isinstance(t, Phi):
+        vals = set(truth(a) for a in t.terms())
+        if len(vals) == 1:
+            return vals.pop()
+        return None
     if isinstance(t, Const):
         return bool(t.value)
     if isinstance(t, (Obj, ClsRef, FuncRef, Bound, LambdaRef, EnumVal, GenObj)):
